@@ -46,6 +46,14 @@ def build(n, chains, rings=(), detour=False):
     for ch in chains:
         for a, b in zip(ch, ch[1:]):
             assert xtuml.relate(inst[a], inst[b], 4, 'prev')
+    if detour and chains:
+        # two further instances stood at both ends of the first chain and were deleted again
+        ch = chains[0]
+        v1, v2 = m.new('P'), m.new('P')
+        assert xtuml.relate(inst[ch[-1]], v1, 4, 'prev')
+        assert xtuml.relate(v2, inst[ch[0]], 4, 'prev')
+        xtuml.delete(v1)
+        xtuml.delete(v2)
     for rg in rings:
         for a, b in zip(rg, list(rg[1:]) + [rg[0]]):
             assert xtuml.relate(inst[a], inst[b], 4, 'prev')
